@@ -25,3 +25,8 @@ import contracts.c16_refs  # noqa: F401,E402
 _c = REGISTRY[(R, "DiskRefsContainer.remove_if_equals")]
 _c.prop = sorted(set(_c.prop) | {"C09"})
 _c.options = dict(_c.options, asserts=list(_c.options.get("asserts", [])) + [("packed-entry-removed-before-loose-file", "os.remove(filename)", ["upred('unpacked', name)"])])
+
+# ---- C06: "a delete reported ok stays deleted" rests on remove_if_equals also removing the packed copy (the obligations that
+#      DiskRefsContainer.remove_if_equals already carries for C16 / C09 are run by the C06 check as well)
+_c = REGISTRY[(R, "DiskRefsContainer.remove_if_equals")]
+_c.prop = sorted(set(_c.prop) | {"C06"})
